@@ -113,6 +113,12 @@ def services():
             if mode == 'clen':
                 ctx.transport.resp_headers['Content-Length'] = '99999'
                 return chunks
+            if mode == 'genclen':
+                ctx.transport.resp_headers['Content-Length'] = '99999'
+                def g():
+                    for c in chunks:
+                        yield c
+                return g()
             return chunks
     return Svc
 
@@ -630,7 +636,8 @@ def make_request(rng, combo, kind):
                           'blob-genfault': ('/blob', 'n=1&sz=4&mode=genfault'), 'blob-genexn': ('/blob', 'n=1&sz=4&mode=genexn'),
                           'blob-genmid': ('/blob', 'n=%d&sz=%d&mode=genmid' % (n, sz)),
                           'blob-ostring': ('/blob', 'n=%d&sz=%d&mode=ostring' % (n, sz)),
-                          'blob-clen': ('/blob', 'n=%d&sz=%d&mode=clen' % (n, sz))})
+                          'blob-clen': ('/blob', 'n=%d&sz=%d&mode=clen' % (n, sz)),
+                          'blob-genclen': ('/blob', 'n=%d&sz=%d&mode=genclen' % (n, sz))})
         r['path'], r['qs'] = table[kind]
         return r
     r = {'method': 'POST', 'path': '/', 'qs': ''}
@@ -673,7 +680,7 @@ def kinds_for(combo):
     k = list(REQUEST_KINDS)
     if combo == 'http':
         k += ['blob-list', 'blob-list0', 'blob-gen', 'blob-gen0', 'blob-genfault', 'blob-genexn', 'blob-genmid',
-              'blob-ostring', 'blob-clen']
+              'blob-ostring', 'blob-clen', 'blob-genclen']
     if combo == 'json-http':
         k = ['ok', 'unknown', 'malformed', 'invalid', 'fault', 'exn', 'blob-list', 'blob-gen', 'blob-gen0',
              'blob-genfault', 'blob-genexn', 'blob-genmid']
@@ -847,6 +854,10 @@ def run(check):
         'the layers below the WSGI layer',
         'observed, not proved: the PEP 3333 typing rules (status line, (str, str) headers, bytes chunks) - checked by '
         'the direct oracle on every case and by wsgiref.validate.validator on a sample',
+        'translator harness/translate/wsgireader.py: the statement skeleton of WsgiApplication.__wsgi_input_to_iterable / '
+        '__read_wsgi_input is compared token for token with the modelled one and the eight deciding expressions '
+        '(limit comparison, loop condition, size of the next read, in-loop guard, end-of-stream test, after-loop test, '
+        'lengths used for an empty / absent header) are translated to Gen/WsgiReader.v, which the model uses',
         'modelled, not verified: CPython int() on the CONTENT_LENGTH text (Base/Digits.int_of_text, ASCII digits), '
         'iterator/generator semantics of _ResponseIterator and of the body reader',
     ]
@@ -860,7 +871,17 @@ def run(check):
         'not modelled: auxiliary method contexts (process_contexts with others), MTOM (apply_mtom), the push '
         '(PushBase) interface, HttpRpc POST/form bodies (werkzeug absent), event listeners that raise',
     ]
-    check.regen([])
+    check.regen(['wsgireader'])
+    gen = os.path.join(lib.COQ, 'Gen', 'WsgiReader.v')
+    try:
+        text = open(gen).read()
+    except IOError:
+        text = ''
+    if 'Definition shape_ok : bool := true.' not in text:
+        m = re.search(r'\(\* SHAPE MISMATCH: (.*?) \*\)', text, re.S)
+        check.broken.append(('translator', 'wsgireader',
+                             'the body reader of spyne/server/wsgi.py does not have the statement structure the model '
+                             'mirrors: %s' % (m.group(1) if m else 'Gen/WsgiReader.v missing')))
     check.check_sources()
     check.prove('Props.C13', THEOREMS)
     cases = gen_cases(check)
